@@ -52,7 +52,7 @@ def plan(tier):
 def describe(tier):
     return {
         'rule': 'ordered pairs (left, right) of circuit variants = circuit of F(n,<=k,{NOT,AND,OR,XOR,GT,constants}) x output list '
-        '(every sequence of 1..2 nodes incl. inputs and repeats); both circuits share labels; build_miter with default and custom '
+        '(every sequence of 1..2 nodes incl. inputs and repeats); both circuits share labels (also with the right circuit declaring the same input labels in reversed order); build_miter with default and custom '
         'block names; the miter is evaluated on all 2^n inputs through Circuit.evaluate and the reference evaluator; '
         'is_circuit_satisfiable(miter) with the shim solver; operands re-abstracted; every mismatched-shape pair from a small '
         'pool must raise MiterDifferentShapesError. distinct = distinct (n, m, difference table) outcomes.',
@@ -71,15 +71,18 @@ def probe():
     return refmodel.abstract(build_miter(a, b)).to_json()
 
 
-def check_pair(L, R, acc, names=None):
+def check_pair(L, R, acc, names=None, right_inputs_reversed=False):
     from cirbo.sat import build_miter, is_circuit_satisfiable
 
     n, gl, ol = L
     _, gr, orr = R
-    case = lambda: {'left': space.spec_json(n, gl, ol), 'right': space.spec_json(n, gr, orr), 'names': names}  # noqa: E731
+    case = lambda: {'left': space.spec_json(n, gl, ol), 'right': space.spec_json(n, gr, orr), 'names': names, 'right_inputs_reversed': right_inputs_reversed}  # noqa: E731
     feats = {'m': len(ol)}
     a = space.build(n, gl, ol)
     b = space.build(n, gr, orr)
+    if right_inputs_reversed:
+        # same labels on both sides, declared in a different order: inputs correspond by POSITION
+        b.set_inputs(list(reversed(b.inputs)))
     na, nb = refmodel.abstract(a), refmodel.abstract(b)
     ka, kb = na.key(), nb.key()
     acc.states += 1
@@ -155,6 +158,8 @@ def run_pairs(task, acc):
         for R in right:
             for nm in names_list:
                 check_pair(L, R, acc, nm)
+            if n >= 2 and task['kl'] == 1:
+                check_pair(L, R, acc, None, right_inputs_reversed=True)
     if left[task['lo']:task['hi']]:
         acc.sample({'left': space.spec_json(*left[task['lo']]), 'right': space.spec_json(*right[-1]), 'names': None})
 
@@ -212,4 +217,4 @@ def replay(case, acc):
     R = space.spec_from_json(case['right'])
     if L[0] != R[0] or len(L[2]) != len(R[2]):
         return run_mismatch(acc)
-    check_pair(L, R, acc, tuple(case['names']) if case.get('names') else None)
+    check_pair(L, R, acc, tuple(case['names']) if case.get('names') else None, case.get('right_inputs_reversed', False))
